@@ -163,7 +163,11 @@ def check(facts):
     nsites = 0
     for comp in comps:
         cset = set(comp)
-        comp_key = "scc=" + "+".join(sorted(re.sub(r"::\{closure#\d+\}", "", c) for c in cset if "{closure" not in c) or sorted(cset))
+        # A cycle is identified by where it is entered from outside (stable when a helper is extracted inside the cycle)
+        strip = lambda c: re.sub(r"::\{closure#\d+\}", "", c)
+        entered = sorted({strip(c) for c in cset if c == ENTRY or any(c in edges.get(o, ()) for o in nodes if o not in cset and strip(o) not in {strip(x) for x in cset})})
+        members = sorted(strip(c) for c in cset if "{closure" not in c) or sorted(cset)
+        comp_key = "scc=" + "+".join(entered or members)
         guarded_edges = set()
         edge_notes = {}
         for caller in cset:
